@@ -83,6 +83,21 @@ impl<'a, K, M> PoolValues<'a, K, M> {
     { unimplemented!() }
 }
 
+/// `values().filter(p)`: some of the records; nothing is promised about which (so a caller that needs ALL records cannot use it)
+#[verifier::external_body] #[verifier::reject_recursive_types(K)] #[verifier::reject_recursive_types(M)]
+pub struct PoolValuesFiltered<'a, K, M> { _p: core::marker::PhantomData<&'a (K, M)> }
+impl<'a, K, M> PoolValues<'a, K, M> {
+    #[verifier::external_body]
+    pub fn filter<P: FnMut(&&'a WorkerProperties<K, M>) -> bool>(self, p: P) -> (r: PoolValuesFiltered<'a, K, M>)
+        requires forall|w: &&'a WorkerProperties<K, M>| p.requires((w,)),
+    { unimplemented!() }
+}
+impl<'a, K, M> PoolValuesFiltered<'a, K, M> {
+    #[verifier::external_body]
+    pub fn all<F: FnMut(&'a WorkerProperties<K, M>) -> bool>(&mut self, f: F) -> (r: bool)
+        requires forall|w: &'a WorkerProperties<K, M>| f.requires((w,)),
+    { unimplemented!() }
+}
 /// A-std: derive(PartialEq) on the fieldless enum DrainState
 pub assume_specification [<DrainState as PartialEq>::eq] (a: &DrainState, b: &DrainState) -> (r: bool)
     ensures r == (*a == *b);
